@@ -146,6 +146,10 @@ def check(ctx):
     r = ctx.tlc("Lists", "ListsMCthorough.cfg" if ctx.thorough else "ListsMC.cfg", workers=16, timeout=1500)
     if not r.ok:
         ctx.model_violation(r, "Lists invariants")
+    if ctx.thorough:   # beyond the exhaustive bound: random behaviours with 3 heads x 6 nodes
+        r = ctx.tlc("Lists", "ListsSim.cfg", workers=16, simulate=20000, depth=80, coverage=False, timeout=1500)
+        if not r.ok:
+            ctx.model_violation(r, "Lists invariants (simulation, 3 heads x 6 nodes)")
     r = ctx.tlc("SHList", "SHListMC.cfg", workers=4)
     if not r.ok:
         ctx.model_violation(r, "SHList invariants")
